@@ -80,6 +80,19 @@ def planted_input(rng: random.Random):
                      "mirrored": rev, "truth": truth, "rev": rev,
                      "dense": list(dense) if dense else []})
         qid += rng.randint(1, 5)
+    if rng.random() < 0.5:
+        # company in the query file: a molecule of two adjacent reference regions with 20-60 kb inserted between them
+        # (its two passes are joined), and a planted query that carries the reference's own id
+        w1 = rng.randint(12, 20)
+        a0 = rng.randint(4, n - 2 * w1 - 6)
+        ins = rng.randint(20000, 60000) * 10
+        part = [dx[i] - dx[a0] for i in range(a0, a0 + 2 * w1)]
+        two = part[:w1] + [v + ins for v in part[w1:]]
+        qrys.append({"id": qid + 3, "len": two[-1] + 500, "x": two, "kind": "company", "ref": ref["id"],
+                     "mirrored": False, "truth": [], "rev": False, "dense": []})
+        if all(q["id"] != ref["id"] for q in qrys):
+            qrys[rng.randrange(0, 8)]["id"] = ref["id"]
+            qrys.sort(key=lambda q: q["id"])
     return {"refs": [ref], "qrys": qrys}
 
 
@@ -103,6 +116,8 @@ def one_input(args):
                 for row in res["rows"].rows:
                     shifts[int(row.queryId)] = [int(round(float(p.queryShift))) for p in row.alignedPairs]
             for q in inp["qrys"]:
+                if q["kind"] != "planted":
+                    continue
                 r = recs.get(q["id"])
                 lines.append({"ref": inp["refs"][0]["id"], "rev": q["rev"], "truth": q["truth"],
                               "rec": [pipe_common.rec_for_tla(r)] if r else [],
